@@ -11,6 +11,7 @@ import PonyVerif.Model.Translate
 import PonyVerif.Model.Distinct
 import PonyVerif.Lemmas.SqlBEq
 import PonyVerif.Model.Subquery
+import PonyVerif.Model.QRel
 namespace PonyVerif.Drive.C01
 open Lean PonyVerif.Drive PonyVerif.Model.Q
 
@@ -210,9 +211,76 @@ def dialectOf (j : Json) : Except String Dialect := do
   | some d => pure d
   | none => throw s!"dialect {s}"
 
+/-- every COLUMN node of a condition refers to the alias `a` (so that dropping the alias in `sqlOfJson` loses nothing) -/
+partial def aliasesOk (a : String) : Json → Bool
+  | .arr xs =>
+    match xs.toList with
+    | [.str "COLUMN", .str al, _] => al == a
+    | l => l.all (aliasesOk a)
+  | _ => true
+
+/-- decode `[ 'EXISTS' | 'NOT_EXISTS', [ 'FROM', [ child, 'TABLE', _ ] ], [ 'WHERE', [ 'EQ', [COLUMN parent pk], [COLUMN child fk] ], conds… ] ]` -/
+def existsParts (parent child pk fk : String) (ast : Json) : Except String (Bool × List Json) := do
+  match ast with
+  | .arr #[.str head, .arr #[.str "FROM", .arr #[.str c, .str "TABLE", _]], .arr wh] =>
+    let neg ← (match head with
+      | "EXISTS" => pure false
+      | "NOT_EXISTS" => pure true
+      | h => throw s!"head {h}")
+    if c != child then throw "child alias"
+    match wh.toList with
+    | .str "WHERE" :: .arr #[.str "EQ", .arr #[.str "COLUMN", .str p1, .str k1], .arr #[.str "COLUMN", .str c1, .str f1]] :: conds =>
+      if p1 == parent && k1 == pk && c1 == child && f1 == fk && conds.all (aliasesOk child) then pure (neg, conds)
+      else throw "join condition / aliases"
+    | _ => throw "WHERE shape"
+  | _ => throw "EXISTS shape"
+
+/-- columns of another alias than the child's become attributes `parent.<name>` of the joined row -/
+partial def mapParentAlias (child : String) : Json → Json
+  | .arr xs =>
+    match xs.toList with
+    | [.str "COLUMN", .str al, .str n] => if al == child then .arr xs else .arr #[.str "COLUMN", .str child, .str ("parent." ++ n)]
+    | l => .arr (l.map (mapParentAlias child)).toArray
+  | j => j
+
 def handle (j : Json) : Except String Json := do
   let op ← argStr j "op"
   match op with
+  | "checkjoin" =>
+      -- the verified checker on conditions that read attributes of the referenced object (C01_join / C01_join_required)
+      let d ← dialectOf j
+      let sch ← schemaOfJson (← j.getObjVal? "schema")
+      let e ← exprOfJson (← j.getObjVal? "expr")
+      let child ← argStr j "child"
+      let real ← (← argArr j "sql").mapM (fun c => sqlOfJson (mapParentAlias child c))
+      pure (Json.mkObj [("accepted", .bool (checkConditions sch d e (SqlList.ofList real))), ("frag", .bool (frag sch d e))])
+  | "checkexists" =>
+      -- the verified checker on the inner conditions of a real correlated [NOT] EXISTS (C01_exists_collection / C01_not_exists_collection)
+      let d ← dialectOf j
+      let sch ← schemaOfJson (← j.getObjVal? "schema")
+      let e ← exprOfJson (← j.getObjVal? "expr")
+      match existsParts (← argStr j "parent") (← argStr j "child") (← argStr j "pk") (← argStr j "fk") (← j.getObjVal? "ast") with
+      | .error m => pure (Json.mkObj [("accepted", .bool false), ("shape", .str m), ("frag", .bool (frag sch d e))])
+      | .ok (neg, conds) =>
+        let cs ← conds.mapM sqlOfJson
+        pure (Json.mkObj [("accepted", .bool (checkConditions sch d e (SqlList.ofList cs))), ("negated", .bool neg), ("frag", .bool (frag sch d e))])
+  | "evalexists" =>
+      -- model semantics of the correlated sub-select: for every parent key, EXISTS and COUNT over the child rows (each row carries "fk")
+      let d ← dialectOf j
+      let conds ← (← argArr j "sql").mapM sqlOfJson
+      let pars ← j.getObjVal? "params"
+      let rows ← argArr j "rows"
+      let children ← rows.mapM (fun r => do
+        let env ← penvOfJson r pars
+        let fk := match r.getObjVal? "fk" with
+          | .ok (.num n) => some n.mantissa
+          | _ => none
+        pure (⟨fk, env⟩ : Child))
+      let pks ← (← argArr j "pks").mapM jInt
+      let outs := pks.map (fun pk => match sqlExists likeExec d pk (SqlList.ofList conds) children, sqlCountWhere likeExec d pk (SqlList.ofList conds) children with
+        | some b, some n => Json.mkObj [("exists", .bool b), ("count", .num (JsonNumber.fromNat n))]
+        | _, _ => Json.str "err")
+      pure (Json.mkObj [("ok", .arr outs.toArray)])
   | "translate" =>
       let d ← dialectOf j
       let sch ← schemaOfJson (← j.getObjVal? "schema")
